@@ -75,7 +75,7 @@ NATIVE_WRITERS = r'''
 def tasks(tier, params):
     part = params.get('part')
     out = []
-    names = ['q2_shared', 'an_ns_ptr', 'mx_srv', 'opt_and_ar', 'opt_only', 'soa_minfo'] + (['rp_afsdb_rt', 'nocompress', 'cname_chain'] if tier == 'thorough' else [])
+    names = ['q2_shared', 'an_ns_ptr', 'mx_srv', 'opt_and_ar', 'opt_only', 'opt_data', 'soa_minfo'] + (['rp_afsdb_rt', 'nocompress', 'cname_chain'] if tier == 'thorough' else [])
     ptr_only = ['straddle', 'far', 'edge16383', 'edge16384']
     scs = dict(scenarios(tier))
     for n in names:
